@@ -85,7 +85,7 @@ def snapshot(env, extra=()):
     return {id(e): content(e) for e in reachable_elems(list(env.values()) + list(extra))}
 
 
-def run_with_loop(I, st, fr, func, args, kwargs, mode, havoc=None, ghost=None, declared=None, extra_roots=()):
+def run_with_loop(I, st, fr, func, args, kwargs, mode, havoc=None, ghost=None, declared=None, extra_roots=(), allow_no_loop=False):
     """havoc(env, fr, run): step mode, sets the generic loop-head state; declared(env) -> list of objects the
     contract allows the body to mutate"""
     run = LoopRun()
@@ -96,6 +96,7 @@ def run_with_loop(I, st, fr, func, args, kwargs, mode, havoc=None, ghost=None, d
             raise Unsupported('second symbolic loop in the function (one loop contract per function)')
         n_it = rng.stop - rng.start if not (isinstance(rng.start, int) and rng.start == 0) else rng.stop
         loc = env.vars
+        run.n_it = n_it
         if mode == 'init':
             run.head = dict(loc)
             run.head_content = snapshot(loc, extra_roots)
@@ -149,6 +150,66 @@ def run_with_loop(I, st, fr, func, args, kwargs, mode, havoc=None, ghost=None, d
         run.ret = I.call(func, list(args), dict(kwargs), fr)
     finally:
         st.loop_handler = None
-    if run.loops == 0:
+    if run.loops == 0 and not allow_no_loop:
         raise Unsupported('no loop over a symbolic range was reached')
     return run
+
+
+class PathCut(Exception):
+    """the rest of this path is covered by the induction hypothesis of a loop contract"""
+
+
+def while_contract(st, havoc, on_entry=None, on_backedge=None, match=None):
+    """Loop contract for a `while` loop (inductive, unbounded): at the loop the handler
+       1. calls on_entry(loc, fr)      - the contract records the initiation obligations of its invariant
+       2. calls havoc(loc, fr)         - every variable the body assigns becomes arbitrary, the invariant is assumed
+       3. evaluates the loop test; if false the loop is left (else-branch runs)
+       4. executes the real body once: break -> the code after the loop runs on the generic state;
+          fall through / continue -> on_backedge(loc, fr) records the consecution obligations and the path ends
+          (every later iteration starts in a state the havoc already covers)
+    exceptions raised by the body propagate as usual."""
+    def handler(I, fr, node, env):
+        if match is not None and not match(node):
+            return NotImplemented
+        loc = env.vars
+        if on_entry is not None:
+            on_entry(loc, fr)
+        havoc(loc, fr)
+        if not I.truth(I.eval(node.test, env, fr), fr):
+            I.exec_block(node.orelse, env, fr)
+            return None
+        try:
+            I.exec_block(node.body, env, fr)
+        except ip._Break:
+            return None
+        except ip._Continue:
+            pass
+        if on_backedge is not None:
+            on_backedge(loc, fr)
+        raise PathCut()
+    st.while_handler = handler
+
+
+class PermOracle(object):
+    """ghost model of np.random.permutation: the permutation drawn in a sweep is arbitrary (the path forks over all
+    m! orders) but a fixed function of the sweep number, so two runs consulting the oracle see the same draw"""
+
+    def __init__(self, m):
+        import itertools
+        self.m = m
+        self.perms = list(itertools.permutations(range(m)))
+        self.calls = 0
+        self.order = None
+
+    def __call__(self, I, fr, arg, *a, **k):
+        items = list(I.iterate(arg, fr))
+        self.calls += 1
+        if len(items) != self.m:
+            raise Unsupported('permutation of an unexpected length')
+        if self.order is None:
+            self.order = self.perms[-1]
+            for j, pm in enumerate(self.perms[:-1]):
+                if I.truth(S(z3.Bool('perm_is_%d' % j)), fr):
+                    self.order = pm
+                    break
+        return [items[i] for i in self.order]
